@@ -68,6 +68,12 @@ Proof.
     apply in_map_iff in Hcl. destruct Hcl as (a & Ha & _). congruence.
 Qed.
 
+Lemma report_items_ok nd qs chs : forallb item_ok (report_items_of nd qs chs) = true.
+Proof.
+  unfold report_items_of. pose proof (items_of_ok nd [] qs) as H. rewrite forallb_forall in *.
+  intros it Hit. apply filter_In in Hit. apply H. tauto.
+Qed.
+
 Lemma ev_statuses_ok nd qs : forallb is_evstatus (ev_statuses_of nd qs) = true.
 Proof. unfold ev_statuses_of. induction (ev_status_codes nd qs) as [|x l IH]; [reflexivity|]. cbn [map forallb is_evstatus]. exact IH. Qed.
 
